@@ -117,6 +117,15 @@ def p_inner_split_over_multi_axis_upstream(prog):
     return False
 
 
+def p_empty_inner_split_combined(prog):
+    kinds = {nd["name"]: nd["kind"] for nd in prog["nodes"]}
+    for nd in prog["nodes"]:
+        if nd.get("combine") and any(s[0] == "splitnode" and kinds.get(s[1]) == "LE"
+                                     for s in nd["in"].values()):
+            return True
+    return False
+
+
 CLASSES = [
     ("ValueError@state.py:_add_current_groups", p_combiner_upstream_axis_with_own_split,
      "combiner-names-upstream-axis-on-node-with-own-split"),
@@ -127,10 +136,17 @@ CLASSES = [
     ("AssertionError@lazy.py:split", p_inner_split_over_multi_axis_upstream,
      "inner-split-over-output-of-node-with-two-or-more-state-axes"),
     ("wrong-values", p_fan_in_shared_origin, "fan-in-of-shared-origin-multiplied-instead-of-aligned"),
+    ("KeyError@state.py:combine_final_groups", p_fan_in_shared_origin,
+     "combiner-below-fan-in-of-shared-origin"),
+    ("wrong-order", p_empty_inner_split_combined, "empty-group-of-combined-inner-split-lost-in-workflow-output"),
 ]
 
 
 def classify(core, small):
+    if core.startswith("valid-workflow-raises:") and p_partial_inner_combiner(small):
+        # one root cause (the final splitter of the combined node is stale until prepare_states
+        # runs) surfaces at several places of graph construction / state merging
+        return "valid-workflow-raises:combiner-names-part-of-an-inner-linked-group"
     for suffix, pred, name in CLASSES:
         if core.endswith(suffix) and pred(small):
             return f"{core}:{name}"
